@@ -51,4 +51,23 @@ def batched (s : List Nat) (ops : List Op) : List Nat :=
   (stopsKept ops).foldl (fun acc k => apply acc (.stop k))
     (sequential s (ops.filter isForced ++ ops.filter isStart ++ ops.filter isOnce))
 
+/-! ### slots that must not be lost: restart (F24) and a new prefix that subsumes scheduled regions (F25) -/
+
+/-- `loadRecentlyReprovidedRegions`, the test on one history entry as repaired: a region reprovided at `ts` counts as
+    recently reprovided at `now` only if the scheduled regions overlapping it, due in `untilDue`, come no later than one
+    interval plus the allowed delay after `ts` -/
+def recentRepaired (I D now ts untilDue : Nat) : Bool := decide (now + untilDue ≤ ts + I + D)
+
+/-- … and as it was: every entry younger than one interval (older ones are garbage-collected) -/
+def recentLegacy (I now ts : Nat) : Bool := decide (now < ts + I)
+
+/-- when the keys of the entry's region are advertised next: at their region's slot if the entry is recent, otherwise at
+    once (`enqueueExpiredRegionsNoLock` hands the region to the catch-up queue) -/
+def nextAdvert (recent : Bool) (now untilDue : Nat) : Nat := if recent then now + untilDue else now
+
+/-- `schedulePrefixNoLock` of a prefix that was not just reprovided, as repaired: among its own slot and the slots of the
+    scheduled regions it subsumes, the one that comes first from the current offset of the cycle -/
+def takeOver (I cur own : Nat) (subs : List Nat) : Nat :=
+  subs.foldl (fun best t => if timeBetween I cur t < timeBetween I cur best then t else best) own
+
 end KadDHT.Sched
